@@ -396,12 +396,12 @@ class Instrument:
             if n in self.sa.__dict__:
                 del self.sa.__dict__[n]
 
-    def re(self, elements, prg_):
+    def re(self, elements, prg_, *rest):
         cur = {"idxs": [k for k, e in enumerate(elements) if e.terms and len(e.terms) > 0], "k": 0, "hits": [],
                "dropped": [k for k, e in enumerate(elements) if not (e.terms and len(e.terms) > 0)], "elem": None}
         n = len(elements)
         self.ctx = ("agg", cur)
-        out = self.o_re(elements, prg_)
+        out = self.o_re(elements, prg_, *rest)
         self.ctx = None
         assert len(out) == n - len(cur["dropped"]) + len(cur["hits"]), "element count"
         assert cur["k"] == len(cur["idxs"]), "calls of _element_passes"
@@ -454,9 +454,12 @@ def direct_decisions(sa, prg):
                 continue
             elements = blit.atom.elements
             hits, dropped = [], []
+            # fix b5d2d20: `execute` hands the variables of the rest of the statement to `_replace_elements`
+            from ngo.utils.ast import collect_ast
+            outside = set(collect_ast(stm.update(body=[x for x in stm.body if x != blit]), "Variable"))
             for ei, elem in enumerate(elements):
                 if elem.terms and len(elem.terms) > 0:
-                    if not sa._element_passes(elem, elements):
+                    if not sa._element_passes(elem, elements) or elem.terms[0] in outside:
                         continue
                     trig = sa._get_trigger(elem.terms[0], elem.condition)
                     if trig is None:
